@@ -624,7 +624,8 @@ func precedenceOfKinds(kind1 reflect.Kind, kind2 reflect.Kind) reflect.Kind {
 			return kind2
 		}
 		return kind1
-	case reflect.Int, reflect.Int8, reflect.Int16, reflect.Int32, reflect.Int64:
+	default:
+		// any other left operand (signed and unsigned integers, bool, nil): a string or float on the right decides
 		switch kind2 {
 		case reflect.String, reflect.Float64, reflect.Float32:
 			return kind2
